@@ -126,6 +126,7 @@ func body(sc scen) func(dir string) string {
 		}
 		res := make([][]string, len(sc.sess))
 		reads := make([][]string, len(sc.sess))
+		vsched.Focus()
 		for i, s := range sc.sess {
 			i, s := i, s
 			vsched.Spawn(func() { res[i], reads[i] = runSession(e, s) })
